@@ -237,3 +237,95 @@ Proof.
   intros Hcs HW Hnc Hwf Hd8 Hck. apply (eam_plus_links_d8 sds subncol cs ncol ea Hcs HW Hnc Hwf Hd8).
   apply check_cross_sound. exact Hck.
 Qed.
+
+(* ---------- dmm: the trace stops next to a window centred on a corner of the start cell ---------- *)
+Section DmmD8.
+Variable sds : list nat.
+Variable subncol cs nrow ncol : nat.
+Notation nsub := (length sds).
+Notation nc := (nrow * ncol)%nat.
+Notation sd := (Upscale.sd sds).
+Notation cellof := (cellof subncol cs ncol).
+Notation prow t := (t / subncol).
+Notation pcol t := (t mod subncol).
+
+Hypothesis Hcs : 2 <= cs.
+Hypothesis HW : 0 < subncol.
+Hypothesis Hnc : subncol <= ncol * cs.
+Hypothesis Hwf : forall t, t < nsub -> sd t < nsub -> sd (sd t) < nsub.
+Hypothesis Hd8 : forall t, t < nsub -> sd t < nsub -> in_d8 t (sd t) subncol = true.
+
+(* one coordinate: the window of half-width cs / 2 around the corner (B0 + d) * cs - 1/2, in doubled coordinates *)
+Definition win1 (B0 d x : nat) : Prop := (Z.abs (2 * Z.of_nat x - (2 * Z.of_nat ((B0 + d) * cs) - 1)) <= Z.of_nat cs)%Z.
+Definition win1x (B0 d x : nat) : Prop := (Z.abs (2 * Z.of_nat x - (2 * Z.of_nat ((B0 + d) * cs) - 1)) <= Z.of_nat cs + 2)%Z.
+
+Lemma win1_step B0 d x x' : win1 B0 d x -> x' <= x + 1 -> x <= x' + 1 -> win1x B0 d x'.
+Proof. unfold win1, win1x. lia. Qed.
+
+Lemma win1x_near B0 d x : d <= 1 -> win1x B0 d x -> near cs B0 x.
+Proof.
+  intros Hd H. unfold win1x in H. unfold near, band.
+  pose proof (Nat.div_mod x cs ltac:(lia)) as E. pose proof (Nat.mod_upper_bound x cs ltac:(lia)) as Hm.
+  set (q := x / cs) in *. set (o := x mod cs) in *. clearbody q o.
+  destruct d as [|[|d]]; [| |lia].
+  - split; nia.
+  - split; nia.
+Qed.
+
+Lemma Hcs0 : 0 < cs.
+Proof. lia. Qed.
+
+Section WalkD.
+Variables R0 C0 idx0 s0 : nat.
+Hypothesis Hidx : idx0 = R0 * ncol + C0.
+Hypothesis HC0 : C0 < ncol.
+Notation dr := (2 * (prow s0 mod cs) / cs).
+Notation dc := (2 * (pcol s0 mod cs) / cs).
+
+Lemma d_le1 x : 2 * (x mod cs) / cs <= 1.
+Proof. pose proof (Nat.mod_upper_bound x cs ltac:(lia)). assert (2 * (x mod cs) / cs < 2) by (apply Nat.div_lt_upper_bound; lia). lia. Qed.
+
+Lemma not_outside cur : dmm_outside subncol cs ncol idx0 s0 cur = false ->
+  win1 R0 dr (prow cur) /\ win1 C0 dc (pcol cur).
+Proof.
+  unfold dmm_outside, win1. intros H. apply orb_false_iff in H. destruct H as [H1 H2].
+  assert (D1 : idx0 / ncol = R0 /\ idx0 mod ncol = C0).
+  { rewrite Hidx. split; [symmetry; apply (Nat.div_unique _ _ R0 C0); lia|symmetry; apply (Nat.mod_unique _ _ R0 C0); lia]. }
+  destruct D1 as [D1 D2]. rewrite D1 in H1. rewrite D2 in H2.
+  rewrite Z.gtb_ltb in H1, H2. apply Z.ltb_ge in H1. apply Z.ltb_ge in H2. split; assumption.
+Qed.
+
+Lemma dmm_walk_near fuel : forall cur idx r, cur < nsub -> sd cur < nsub -> idx = cellof cur ->
+  (cellof cur = idx0 \/ (win1x R0 dr (prow cur) /\ win1x C0 dc (pcol cur))) ->
+  dmm_walk sds subncol cs nrow ncol fuel idx0 s0 cur idx = r -> r < nc ->
+  exists p, cellof p = r /\ near cs R0 (prow p) /\ near cs C0 (pcol p).
+Proof.
+  induction fuel as [|f IH]; intros cur idx r Hc Hd Hidx' Hinv Hw Hr; cbn [dmm_walk] in Hw; [unfold ERR in Hw; lia|].
+  assert (Hnear : near cs R0 (prow cur) /\ near cs C0 (pcol cur)).
+  { destruct Hinv as [E|[W1 W2]].
+    - destruct (cell_is_idx0 subncol cs ncol Hcs0 HW Hnc R0 C0 idx0 Hidx HC0 cur E) as [E1 E2].
+      unfold near. rewrite E1, E2. lia.
+    - split; [apply (win1x_near R0 dr); [apply d_le1|exact W1]|apply (win1x_near C0 dc); [apply d_le1|exact W2]]. }
+  destruct (Nat.eqb_spec (sd cur) cur) as [Hpit|Hnp]; [exists cur; subst idx; split; [exact Hw|exact Hnear]|].
+  destruct (negb (cellof (sd cur) =? idx0) && dmm_outside subncol cs ncol idx0 s0 cur) eqn:Stop;
+    [exists cur; subst idx; split; [exact Hw|exact Hnear]|].
+  apply (IH (sd cur) (cellof (sd cur)) r Hd (Hwf cur Hc Hd) eq_refl); [|exact Hw|exact Hr].
+  apply andb_false_iff in Stop. destruct Stop as [S1|S2].
+  - left. apply negb_false_iff, Nat.eqb_eq in S1. exact S1.
+  - right. destruct (not_outside cur S2) as [W1 W2].
+    destruct (pixel_step sds subncol cs ncol Hcs0 HW Hnc Hd8 cur Hc Hd) as (P1 & P2 & P3 & P4).
+    split; [apply (win1_step R0 dr (prow cur)); assumption|apply (win1_step C0 dc (pcol cur)); assumption].
+Qed.
+End WalkD.
+
+(* every link of dmm_nextidx joins a cell with itself or one of its eight neighbours when the scale factor is at least 2
+   (with scale factor 1 it does not: known finding F9) *)
+Theorem dmm_links_d8 idx0 s : s < nsub -> sd s < nsub -> cellof s = idx0 ->
+  let r := dmm_walk sds subncol cs nrow ncol (S nsub) idx0 s s idx0 in r < nc -> in_d8 idx0 r ncol = true.
+Proof.
+  intros Hs Hd Hc r Hr. pose proof (ccol_lt subncol cs ncol Hcs0 HW Hnc s) as HC0. rewrite cellof_eq in Hc.
+  destruct (dmm_walk_near (band cs (prow s)) (band cs (pcol s)) idx0 s (eq_sym Hc) HC0 (S nsub) s idx0 r Hs Hd
+              ltac:(rewrite cellof_eq; auto) ltac:(left; rewrite cellof_eq; exact Hc) eq_refl Hr) as (p & Hp & N1 & N2).
+  rewrite <- Hp, <- Hc. apply (near_in_d8 subncol cs ncol Hcs0 HW Hnc); assumption.
+Qed.
+End DmmD8.
